@@ -114,10 +114,58 @@ template <> struct RIO<Modular<Log16>> {
     static const bool raw = false;
 };
 
+// multiplication with a precomputed reciprocal (modular-mulprecomp.inl): only the machine-word Modular<Storage,Compute>
+// specialisation has it
+template <class R, class = void> struct PrecompOps {
+    static const bool has = false;
+    static std::string run(R&, const std::string&, typename R::Element, typename R::Element) { return "NOOP"; }
+};
+static std::string hex_u128(unsigned __int128 v) {
+    if (v == 0) return "0";
+    std::string s;
+    while (v) { s.insert(s.begin(), "0123456789abcdef"[(unsigned)(v & 15)]); v >>= 4; }
+    return s;
+}
+template <class S, class C>
+struct PrecompOps<Modular<S, C>, typename std::enable_if<std::is_integral<S>::value && std::is_integral<C>::value
+        && (sizeof(S) == sizeof(C) || 2 * sizeof(S) == sizeof(C))>::type> {
+    typedef Modular<S, C> R;
+    static const bool has = true;
+    static std::string run(R& F, const std::string& op, typename R::Element a, typename R::Element b) {
+        typedef typename R::Compute_t Cu;
+        typedef typename R::Residu_t Ru;
+        typename R::Element r; F.init(r);
+        if (op == "mulpp") {          // precomp_p ; mul_precomp_p   -> bitsizep invp result
+            Cu invp; size_t n = 0;
+            F.precomp_p(invp, n);
+            F.mul_precomp_p(r, a, b, invp, n);
+            return vp::hex_ull(n) + " " + hex_u128((unsigned __int128)invp) + " " + ElIO<typename R::Element>::to(r);
+        }
+        if (op == "mulpb") {          // precomp_b(invb, b) ; mul_precomp_b_without_reduction ; mul_precomp_b  -> invb noreduction result
+            Cu invb;
+            F.precomp_b(invb, b);
+            typename R::Element r0; F.init(r0);
+            Ru nr = F.mul_precomp_b_without_reduction(r0, a, b, invb);
+            F.mul_precomp_b(r, a, b, invb);
+            return hex_u128((unsigned __int128)invb) + " " + hex_u128((unsigned __int128)nr) + " " + ElIO<typename R::Element>::to(r);
+        }
+        return "NOOP";
+    }
+};
+
+// maxCardinality() as reported by the running code; a ring class without one (the generic Modular<IntType,Compute_t> before
+// it advertised a maximum) is only bounded by what its Residu_t holds
+template <class R, class = void> struct MaxCardOf {
+    static Z get() { return ElIO<typename R::Residu_t>::hi(); }
+};
+template <class R> struct MaxCardOf<R, decltype((void)R::maxCardinality())> {
+    static Z get() { typename R::Residu_t r = R::maxCardinality(); return zparse(ElIO<typename R::Residu_t>::to(r)); }
+};
+
 // ------------------------------------------------------------------------------------------
 struct RingBase {
     std::string tag;
-    bool balanced = false, needs_prime = false, floating = false, needs_odd = false, c04_only = false;
+    bool balanced = false, needs_prime = false, floating = false, needs_odd = false, c04_only = false, has_precomp = false;
     virtual ~RingBase() {}
     virtual Z maxCard() const = 0;      // < 0 : unbounded
     virtual Z minCard() const = 0;
@@ -140,11 +188,7 @@ template <class R> struct RingH : RingBase {
     R* F = nullptr;
     Z m;
     ~RingH() { delete F; }
-    Z maxCard() const override {
-        Res r = R::maxCardinality();
-        std::string s = ElIO<Res>::to(r);
-        return zparse(s);
-    }
+    Z maxCard() const override { return MaxCardOf<R>::get(); }
     Z minCard() const override { Res r = R::minCardinality(); return zparse(ElIO<Res>::to(r)); }
     Z elemLo() const override { return ElIO<E>::lo(); }
     Z elemHi() const override { return ElIO<E>::hi(); }
@@ -201,6 +245,7 @@ template <class R> struct RingH : RingBase {
         if (op == "isZero" && need(1)) { EL(x, 0) return F->isZero(x) ? "1" : "0"; }
         if (op == "isOne" && need(1)) { EL(x, 0) return F->isOne(x) ? "1" : "0"; }
         if (op == "areEqual" && need(2)) { EL(x, 0) EL(y, 1) return F->areEqual(x, y) ? "1" : "0"; }
+        if ((op == "mulpp" || op == "mulpb") && need(2)) { EL(x, 0) EL(y, 1) return PrecompOps<R>::run(*F, op, x, y); }
         if (op == "assign" && need(1)) {
             // a ring object ASSIGNED from *F (modulus m): the destination was built with modulus a[0] (0: default-constructed)
             R A;
@@ -447,6 +492,7 @@ template <class R> struct RingC04 : RingBase {
 static std::vector<RingBase*> RINGS;
 template <class R> static void reg(const char* tag, bool balanced = false, bool prime = false, bool fl = false) {
     auto* h = new RingH<R>();
+    h->has_precomp = PrecompOps<R>::has;
     h->tag = tag; h->balanced = balanced; h->needs_prime = prime; h->floating = fl;
     RINGS.push_back(h);
 }
@@ -469,6 +515,9 @@ static void register_all() {
     reg<Modular<RecInt::ruint<6>>>("ru6");
     reg<Modular<RecInt::ruint<7>, RecInt::ruint<8>>>("ru7ru8");
     reg<Modular<Log16>>("log16", false, true);
+    // the generic Modular<IntType,Compute_t> (modular-inttype.h): type pairs that no specialisation takes
+    reg<Modular<int8_t, int32_t>>("g8"); reg<Modular<int16_t, int64_t>>("g16"); reg<Modular<int32_t, Integer>>("g32");
+    reg<Modular<int64_t, Integer>>("g64"); reg<Modular<uint8_t, uint32_t>>("gu8"); reg<Modular<uint16_t, uint64_t>>("gu16");
     { auto* h = new RingC04<Montgomery<int32_t>>(); h->tag = "mg32"; h->needs_odd = true; h->c04_only = true; RINGS.push_back(h); }
     { auto* h = new RingC04<GFqDom<int32_t>>(); h->tag = "gfq32"; h->needs_prime = true; h->c04_only = true; RINGS.push_back(h); }
 }
@@ -530,6 +579,8 @@ static std::vector<Z> moduli_for(RingBase* R, vp::Rng& g, bool thorough) {
     for (unsigned k = 2; zpow2(k) <= hi + 1; k += (thorough ? std::max(1u, hibits / 24) : std::max(3u, hibits / 3))) { add(zpow2(k)); add(zpow2(k) - 1); if (thorough && k <= 16) add(zpow2(k) + 1); }
     // square-root region of the maximum (where products start to need the wide type)
     { Z r; mpz_sqrt(r.get_mpz_t(), hi.get_mpz_t()); add(r); add(r + 1); if (thorough) add(r - 1); }
+    // the domain limits of the precomputed-reciprocal multiplications (asserts of modular-mulprecomp.inl): around 2^(h-2), 2^(h-1)
+    { Z r; mpz_sqrt(r.get_mpz_t(), hi.get_mpz_t()); for (Z v : std::vector<Z>{Z(r / 4), Z(r / 2), Z((hi + 1) / 4), Z((hi + 1) / 2)}) { add(v - 1); add(v); if (thorough) add(v + 1); } }
     int nr = thorough ? 6 : 2;
     for (int i = 0; i < nr; ++i) { Z v = lo + zrand_below(g, hi - lo + 1); add(v); if (thorough) add(prev_prime(v < 2 ? Z(2) : v)); }
     std::vector<Z> out;
@@ -595,6 +646,7 @@ static void gen_c03(RingBase* R, vp::Rng& g, bool thorough) {
         }
         for (auto* o : ter) for (auto& a : ops3) for (auto& b : ops3) for (auto& c : ops3)
             run_line(R->tag + "." + o, m, {a, b, c});
+        if (R->has_precomp) for (auto& a : ops) for (auto& b : ops) { run_line(R->tag + ".mulpp", m, {a, b}); run_line(R->tag + ".mulpb", m, {a, b}); }
         // reduce: any value of the storage type (exact-integer range for floating storage)
         if (R->tag != "log16") {
             Z lo = R->elemLo(), hi = R->elemHi();
